@@ -429,7 +429,9 @@ def oracle_C12(rs, n, ctx):
         cls = str(rs.choice(["far", "corner", "node", "line", "kd", "interior", "nearline"]))
         try:
             E, tt, info = solved(rs, nd, hi=(7 if nd == 2 else 3), grad=True, cls=cls)
-        except IndexError as ex:
+        except (IndexError, SystemError) as ex:
+            if isinstance(ex, SystemError) and not isinstance(ex.__cause__, IndexError):
+                raise
             R.case(("solve", nd, cls))
             R.violate("C12:solve", f"IndexError in solve: {ex}", {"cls": cls})
             continue
@@ -462,14 +464,19 @@ def oracle_C12(rs, n, ctx):
                 try:
                     tt.raytrace(p, **kw)
                     R.bump("rays")
-                except IndexError as ex:
+                except (IndexError, SystemError) as ex:
+                    if isinstance(ex, SystemError) and not isinstance(ex.__cause__, IndexError):
+                        raise
                     R.violate("C12:raytrace", f"IndexError in raytrace({kw}): {ex}", dict(rep, point_hex=hexl(p), kwargs=kw))
                 except RuntimeError:
                     R.bump("rays_budget")
+        hl = bool(rs.rand() < 0.5)
         try:
-            tt.raytrace(pts, honor_grid=bool(rs.rand() < 0.5))
-        except IndexError as ex:
-            R.violate("C12:raytrace-list", f"IndexError in list raytrace: {ex}", dict(rep, points_hex=hexl(pts)))
+            tt.raytrace(pts, honor_grid=hl)
+        except (IndexError, SystemError) as ex:
+            if isinstance(ex, SystemError) and not isinstance(ex.__cause__, IndexError):
+                raise
+            R.violate("C12:raytrace-list", f"IndexError in list raytrace (honor_grid={hl}): {ex.__cause__ or ex}", dict(rep, points_hex=hexl(pts), honor_grid=hl))
         except RuntimeError:
             R.bump("rays_budget")
     return R
